@@ -1,0 +1,52 @@
+//go:build verif
+
+package pbytes
+
+// Contracts for the verification machinery in /verif (comment-only; see /verif/DESIGN.md).
+
+//@ property C19
+//@ func (*Pool).Get
+//@   mode bv
+//@   requires p != nil && pool.inv(p.pool) && p.pool.stepSize <= 1<<47 && 0 <= c && c <= 1<<47
+//@   requires SIall: forallint(i, forallv(x, *[]byte, forallint(s, pool.SI(p.pool, i, x, s))))
+//@   modifies ghost pooltyp
+//@   ensures capacity: result != nil && cap(*result) >= c && len(*result) <= cap(*result)
+//@   ensures once: nemitted() <= 1
+
+//@ func (*Pool).Put
+//@   mode bv
+//@   forall i0 int
+//@   forall x0 *[]byte
+//@   forall s0 int
+//@   requires p != nil && bts != nil && pool.inv(p.pool)
+//@   requires pool.SI(p.pool, i0, x0, s0)
+//@   modifies ghost pooltyp
+//@   ensures shard: pool.SI(p.pool, i0, x0, s0)
+//@   ensures once: nemitted() <= 1
+
+//@ func New
+//@   mode bv
+//@   requires max <= pmath.maxintHeadBit
+//@   ensures result != nil && pool.inv(result.pool)
+
+// Package-level wrappers around DefaultPool. The global invariant of DefaultPool
+// (established by New, preserved by every Put and Get, see pool.Pool.Put#post:shard)
+// is an explicit assumption here.
+//@ func Get
+//@   mode bv
+//@   requires 0 <= c && c <= 1<<47
+//@   assumes DefaultPool != nil && pool.inv(DefaultPool.pool) && DefaultPool.pool.stepSize <= 1<<47
+//@   assumes SIall: forallint(i, forallv(x, *[]byte, forallint(s, pool.SI(DefaultPool.pool, i, x, s))))
+//@   modifies ghost pooltyp
+//@   ensures capacity: result != nil && cap(*result) >= c && len(*result) <= cap(*result)
+
+//@ func Put
+//@   mode bv
+//@   forall i0 int
+//@   forall x0 *[]byte
+//@   forall s0 int
+//@   requires p != nil
+//@   assumes DefaultPool != nil && pool.inv(DefaultPool.pool) && DefaultPool.pool.stepSize <= 1<<47
+//@   requires pool.SI(DefaultPool.pool, i0, x0, s0)
+//@   modifies ghost pooltyp
+//@   ensures shard: pool.SI(DefaultPool.pool, i0, x0, s0)
